@@ -34,6 +34,17 @@ func (a atomPoss) union(b atomPoss) atomPoss {
 //   - good: in some assignment the atom is in its accepting state;
 //   - na:   in some assignment short-circuit evaluation skips the atom.
 func atomOnEdge(cond ast.Expr, truth bool, m atomMatcher) atomPoss {
+	return atomOnEdgeMode(cond, truth, m, false)
+}
+
+// atomOnEdgeMode: with conditional=false (the default, strict reading) the
+// atom is "bad" on an edge whenever some consistent assignment has it in its
+// rejecting state — the guard must hold unconditionally, so `evidence && x`
+// being false while there is evidence is a violation. With conditional=true
+// the guard is allowed to be qualified by other terms (a size limit that
+// applies to one file name only): the rejecting state counts only when it is
+// responsible for the branch taken.
+func atomOnEdgeMode(cond ast.Expr, truth bool, m atomMatcher, conditional bool) atomPoss {
 	type node struct {
 		op   byte // 'L' leaf, '!' , '&', '|'
 		x, y *node
@@ -113,6 +124,10 @@ func atomOnEdge(cond ast.Expr, truth bool, m atomMatcher) atomPoss {
 			out.good = true
 			continue
 		}
+		if !conditional {
+			out.bad = true
+			continue
+		}
 		ev2 := false
 		if eval(root, asg^(1<<uint(atomLeaf)), &ev2) != truth {
 			out.bad = true // the rejecting state is responsible for taking this edge
@@ -136,6 +151,11 @@ type gateResult struct {
 // loop head) end the search: what happens in the next iteration is a
 // different candidate.
 func (g *Graph) gate(m atomMatcher, accept map[int]bool, barrier map[int]bool, from int) gateResult {
+	return g.gateMode(m, accept, barrier, from, false)
+}
+
+// gateMode: see atomOnEdgeMode for the meaning of conditional.
+func (g *Graph) gateMode(m atomMatcher, accept map[int]bool, barrier map[int]bool, from int, conditional bool) gateResult {
 	var res gateResult
 	live := g.live()
 	type fe struct {
@@ -152,7 +172,7 @@ func (g *Graph) gate(m atomMatcher, accept map[int]bool, barrier map[int]bool, f
 			if e.Cond == nil {
 				continue
 			}
-			p := atomOnEdge(e.Cond, e.Truth, m)
+			p := atomOnEdgeMode(e.Cond, e.Truth, m, conditional)
 			if !p.present {
 				continue
 			}
